@@ -72,6 +72,9 @@ func gen(g *mon.Gen) {
 	for i := 0; i < g.Pick(6, 80); i++ {
 		g.Emit(&Case{Mask: i % 2, Seed: rng.Int63(), K: 0, Terminal: "drain"}) // odd: two overlapping Shutdown calls
 	}
+	for i := 0; i < g.Pick(4, 40); i++ {
+		g.Emit(&Case{Mask: 0, Seed: rng.Int63(), K: 0, Terminal: "handover"})
+	}
 	for i := 0; i < g.Pick(6, 60); i++ {
 		// the context ends while an accept callback is running (masks with both the accept and the close callback)
 		g.Emit(&Case{Mask: 12 | i%4, Seed: rng.Int63(), K: 3 + rng.Intn(8), Terminal: "cancel", InAccept: 1 + i%3, Yield: i%2 == 0, HDelay: rng.Intn(3)})
@@ -589,6 +592,113 @@ func runDrain(c *Case, r *mon.Rec, rng *rand.Rand) {
 	}
 }
 
+// runHandover: a listener hand-over without downtime: the same Server value starts serving a second listener while the
+// first serve call is still running; then the first one is ended through its context; then Shutdown. After Shutdown
+// returned nil the second serve call, too, has returned the server-closed error, its listener is closed and nothing is
+// accepted or answered any more.
+func runHandover(c *Case, r *mon.Rec, rng *rand.Rand) {
+	dev := simdev.New(uint64(c.Seed), "srv")
+	refDev := simdev.New(uint64(c.Seed), "srv")
+	s := &server.Server{OnErrorFunc: func(error) {}, WriteTimeout: 2 * time.Second}
+	h := srvx.DevHandler(dev, nil)
+	l1, l2 := srvx.NewMemListener(), srvx.NewMemListener()
+	ctx1, cancel1 := context.WithCancel(context.Background())
+	ctx2, cancel2 := context.WithCancel(context.Background())
+	defer cancel1()
+	defer cancel2()
+	ret1, ret2 := make(chan error, 1), make(chan error, 1)
+	a := mon.Attrs{"terminal": c.Terminal}
+	r.Eval(1)
+	r.Cover("terminal", c.Terminal)
+	ask := func(l *srvx.MemListener, tid uint16) (bool, net.Conn) {
+		cli, _, err := l.Dial(time.Second)
+		if err != nil {
+			return false, nil
+		}
+		q := specref.Req{FC: 3, Unit: 1, TID: tid, Addr: uint16(rng.Intn(60000)), Qty: uint16(1 + rng.Intn(10))}
+		want := refDev.Handle(q).Encode(specref.TCP)
+		_ = cli.SetWriteDeadline(time.Now().Add(time.Second))
+		if _, err := cli.Write(q.Encode(specref.TCP)); err != nil {
+			cli.Close()
+			return false, nil
+		}
+		got, _ := srvx.ReadN(cli, len(want), 2*time.Second)
+		return bytes.Equal(got, want), cli
+	}
+	go func() { ret1 <- s.Serve(ctx1, l1, h) }()
+	ok1, cliA := ask(l1, 1)
+	if cliA != nil {
+		defer cliA.Close()
+	}
+	if !ok1 {
+		r.Inconclusive("handover: the first serve call does not answer")
+		return
+	}
+	go func() { ret2 <- s.Serve(ctx2, l2, h) }()
+	ok2, cliB := ask(l2, 2)
+	if cliB != nil {
+		defer cliB.Close()
+	}
+	if !ok2 {
+		select {
+		case e := <-ret2:
+			r.Cover("handover", fmt.Sprintf("second overlapping serve call refused: %v", e)) // not supported: nothing to check
+		default:
+			r.Cover("handover", "second overlapping serve call does not answer")
+		}
+		return
+	}
+	r.Cover("handover", "two serve calls of one Server answer at the same time")
+	time.Sleep(time.Duration(rng.Intn(3000)) * time.Microsecond)
+	cancel1()
+	select {
+	case <-ret1:
+	case <-time.After(3 * time.Second):
+		r.Violate(c, "serve-does-not-return", a, "handover: the first serve call had not returned 3 s after its context was cancelled")
+		return
+	}
+	// the second listener still serves
+	ok3, cliC := ask(l2, 3)
+	if cliC != nil {
+		defer cliC.Close()
+	}
+	if !ok3 {
+		r.Cover("handover", "the second serve call stopped answering when the first one ended")
+		return
+	}
+	sctx, sc := context.WithTimeout(context.Background(), 3*time.Second)
+	shutErr := s.Shutdown(sctx)
+	sc()
+	r.Distinct(mon.Mix(0x4a0d, uint64(c.Seed)))
+	if shutErr != nil {
+		r.Cover("shutdown", "handover-error:"+shutErr.Error())
+		return
+	}
+	r.Eval(2)
+	select {
+	case e := <-ret2:
+		if !errors.Is(e, server.ErrServerClosed) {
+			r.Violate(c, "serve-wrong-error-after-shutdown", a, fmt.Sprintf("handover: Shutdown returned nil, the second serve call returned %v", e))
+		}
+	case <-time.After(2 * time.Second):
+		okLate, cliD := ask(l2, 4)
+		if cliD != nil {
+			cliD.Close()
+		}
+		r.Violate(c, "serve-does-not-return", a, fmt.Sprintf("handover: Shutdown returned nil but the serve call on the second listener was still running 2 s later (listener Close calls: %d; a new request on it was answered: %v)", l2.Closes.Load(), okLate))
+		return
+	}
+	if okLate, cliD := ask(l2, 5); okLate || cliD != nil {
+		if cliD != nil {
+			cliD.Close()
+		}
+		r.Violate(c, "accepts-after-shutdown", a, "handover: a connection to the second listener was accepted after Shutdown returned nil")
+	}
+	if !l2.Closed() {
+		r.Violate(c, "listener-left-open-after-shutdown", a, "handover: Shutdown returned nil and both serve calls returned, the second listener was never closed")
+	}
+}
+
 // runRestart: the same Server value serves twice. The first serve call ends by context cancellation while one request is
 // still in its handler; a second serve call (new listener) follows; then Shutdown. What the server knows about the
 // connection from the first serve call must survive the second one: Shutdown may return nil only after the reply owed to
@@ -773,6 +883,10 @@ func run(ci any, r *mon.Rec) {
 	}
 	if c.Terminal == "drain" {
 		runDrain(c, r, rng)
+		return
+	}
+	if c.Terminal == "handover" {
+		runHandover(c, r, rng)
 		return
 	}
 	sc := &scenario{c: c, r: r, l: srvx.NewMemListener(), hstart: map[uint16]int64{}, hend: map[uint16]int64{}, rejected: map[string]bool{}, inflight: make(chan struct{}, 64), hdone: make(chan struct{}, 64), inAccept: make(chan struct{}, 1)}
